@@ -10,7 +10,7 @@ from harness.props import c06
 ID = "C08"
 REQUIRED_THEOREMS = ["first_context", "no_context", "precedence", "calibrated_is_float", "polynomial", "spline_interior",
                      "spline_knot", "spline_last_point", "spline_out_of_range", "spline_extrapolate", "enumerated",
-                     "boolean", "constructor_sorts", "constructor_keeps_sorted"]
+                     "boolean", "constructor_sorts", "constructor_keeps_sorted", "spline_nan", "calInputFor_ok"]
 RULE = ("requests `cal <calibrator> <x>` and `ptype <type> <packet> <pos> <items>`; splines of 2..6 strictly increasing "
         "dyadic knots queried at every knot, both end points, midpoints and outside points, both orders, both extrapolate "
         "flags; polynomials of degree <= 3 with small dyadic coefficients incl. negative exponents on powers of two; 0..3 "
